@@ -285,9 +285,12 @@ def to_case(ob):
     out = []
     for k, c in enumerate(c16._cases("quick", 0)):
         out.append(c)
-        if k >= 60:
+        if k >= 1500:
             break
-    return out
+    # tensors with variance normalisation first when the obligation is about the tensor path
+    if "tensor" in ob.id:
+        out.sort(key=lambda c: 0 if c.get("norm_var") else 1)
+    return out[:300]
 
 
 # ------------------------------------------------------------------------------------------ have_stats
